@@ -11,7 +11,7 @@ pub fn meta() -> Meta {
     Meta {
         id: "C18",
         level: "exploration",
-        rule: "planted-indel families through `ska build` + `ska lo` (CLI, one thread, hash seeds owned by the shim): base sequences whose (k-1)-mers are unique on both strands; k in {11,15,21,31}; 1..3 indels exactly 4k apart; lengths 1..10 complete for a single indel and {1,2,k/2,10} for several; the segment is present in the carriers and absent in the others, so every carrier set (every non-trivial subset for n=3,4,5; single/half/all-but-one for n=6,8) covers both polarities (insertion vs deletion relative to the majority); orientations all-forward / alternating. Oracle for EVERY record of every run: before+REF+after (or its reverse complement) is a substring of exactly the samples genotyped 0 and before+ALT+after of exactly those genotyped 1 ('-' = empty allele; 0/1 counts for both), nobody is genotyped for an allele they lack. For the planted families additionally: every record corresponds to one planted indel with its carriers, no indel is reported twice, and the recall is >= 90% over the whole enumerated family and over every sub-family with at least 16 distinct planted positions: each k, each class {single indel, several indels, indel that can be slid by exactly 1-2 positions, by exactly 3-5 positions = homopolymer run / tandem copies, up to three positions found in the base sequence for each (length, slide) pair of a fixed list}, and k x slidable class; counts and misses are reported. Cases whose derived samples break (k-1)-mer uniqueness are judged for soundness only.".into(),
+        rule: "planted-indel families through `ska build` + `ska lo` (CLI, one thread, hash seeds owned by the shim, -m in {0, 0.1, 0.2, 0.5} chosen per case — no sample lacks a locus, so none of them may suppress a record): base sequences whose (k-1)-mers are unique on both strands; k in {11,15,21,31}; 1..3 indels exactly 4k apart; lengths 1..10 complete for a single indel and {1,2,k/2,10} for several; the segment is present in the carriers and absent in the others, so every carrier set (every non-trivial subset for n=3,4,5; single/half/all-but-one for n=6,8) covers both polarities (insertion vs deletion relative to the majority); orientations all-forward / alternating. Oracle for EVERY record of every run: before+REF+after (or its reverse complement) is a substring of exactly the samples genotyped 0 and before+ALT+after of exactly those genotyped 1 ('-' = empty allele; 0/1 counts for both), nobody is genotyped for an allele they lack. For the planted families additionally: every record corresponds to one planted indel with its carriers, no indel is reported twice, and the recall is >= 90% over the whole enumerated family and over every sub-family with at least 16 distinct planted positions: each k, each class {single indel, several indels, indel that can be slid by exactly 1-2 positions, by exactly 3-5 positions = homopolymer run / tandem copies, up to three positions found in the base sequence for each (length, slide) pair of a fixed list}, and k x slidable class; counts and misses are reported. Cases whose derived samples break (k-1)-mer uniqueness are judged for soundness only. Every planted layout is run once more through the dev-profile build of the same source (arithmetic overflow checks on): same verdict required, a panic there is an overflow the release build silently wraps.".into(),
         assumptions: vec!["release-profile arithmetic: a debug build panics on a usize underflow in read_graph.rs for short deletion paths (DESIGN §2)".into(), "hash seeds: declared finite set".into()],
         exhaustive_when_uncapped: true,
     }
@@ -116,7 +116,10 @@ pub fn judge_record(c: &IndelCase, r: &lo::IndelRecord) -> Result<Option<usize>,
 
 /// returns (planted indels, reported-and-matched indels) for recall; Err = violation
 pub fn check(c: &IndelCase, seed: u64, dir: &str) -> Result<(usize, usize), String> {
-    let o = lo::run_lo(dir, c.k, &c.samples(), None, &["-m", "0.2"], 1, Some(seed))?;
+    // every sample holds every locus, so no allowed fraction of missing samples (0 included) may suppress a record;
+    // the value is derived from the case so that a replay uses the same one
+    let m = ["0.2", "0", "0.1", "0.5"][(crate::explore::hash64(&(&c.segs, &c.present)) % 4) as usize];
+    let o = lo::run_lo(dir, c.k, &c.samples(), None, &["-m", m], 1, Some(seed))?;
     let premise = c.premise();
     if o.code != 0 {
         // "no entry node" exit: nothing found at all
@@ -213,6 +216,7 @@ pub fn run(ctx: &Ctx, rep: &mut Report) {
         plans.extend(shiftable.iter().cloned());
         plans.push(vec![(starts[0], 1), (starts[1], k / 2), (starts[2], 10)]);
         plans.push(vec![(starts[0], 10), (starts[1], 2), (starts[2], 2)]);
+        let all_plans = plans.clone();
         for segs in plans {
             let slidable = shiftable.contains(&segs) || far_shiftable.contains(&segs);
             for n in [3usize, 4, 5, 6, 8] {
@@ -275,6 +279,38 @@ pub fn run(ctx: &Ctx, rep: &mut Report) {
                             break 'all;
                         }
                     }
+                }
+            }
+        }
+        // every plan once more through the dev-profile build of the same source (arithmetic overflow checks on): the
+        // verdict must be the one of the release build; a panic there is an overflow that the release build wraps
+        if crate::cli::debug_exe().is_some() {
+            for (pi, segs) in all_plans.iter().enumerate() {
+                idx += 1;
+                if !ctx.mine(idx) {
+                    continue;
+                }
+                let n = 3 + pi % 2;
+                let cs = carrier_sets(n, false);
+                let present: Vec<Vec<bool>> = (0..segs.len()).map(|j| cs[(pi + j * 3) % cs.len()].clone()).collect();
+                let c = IndelCase { k, base: base.clone(), segs: segs.clone(), present, flip: (0..n).map(|i| pi % 3 == 1 && i % 2 == 1).collect() };
+                let rel = check(&c, ctx.seed, &dir);
+                crate::cli::set_debug_profile(true);
+                let dbg = check(&c, ctx.seed, &dir);
+                rep.evaluations += 1;
+                rep.nontrivial += 1;
+                rep.corner("plan_repeated_with_overflow_checked_build");
+                match (&rel, &dbg) {
+                    (_, Err(e)) if e.starts_with("MACHINERY") => rep.machinery(e.clone()),
+                    (Err(_), _) => {} // the release verdict is reported by the main family
+                    (Ok(_), Err(e)) => rep.violate(format!("k={k} segs={:?} present={:?} flip={:?}", c.segs, c.present, c.flip), format!("k={k} n={n} indels {:?}: {e}", c.segs), c.json(ctx.seed)),
+                    (Ok(a), Ok(b)) if a != b => rep.violate(format!("profiles differ k={k} segs={:?}", c.segs), format!("k={k} n={n} indels {:?}: {} of {} planted indels reported by the release build, {} by the overflow-checked build", c.segs, a.1, a.0, b.1), c.json(ctx.seed)),
+                    _ => {}
+                }
+                crate::cli::set_debug_profile(false);
+                if ctx.expired() {
+                    rep.capped = true;
+                    break 'all;
                 }
             }
         }
